@@ -88,7 +88,7 @@ Print Assumptions init_idempotent.
 (* ------------------------------------------------------------------ round 2 *)
 
 (** per shared object of the build: static-free (C runtime objects only) or fully classified *)
-Theorem every_library_static_free_or_classified : forall l, In l libs ->
+Theorem every_library_static_free_or_classified : forall l, In l C13_Statics.libs ->
   (forall s, In s table -> s_lib s = l -> class_of allow_list s = Some Runtime) \/
   (forall s, In s table -> s_lib s = l ->
      exists a, lookup allow_list s = Some a /\ incl (s_writers s) (a_writers a) /\ incl (s_addr s) (a_addr a)).
